@@ -30,6 +30,8 @@ pub enum DynOp {
     WithdrawAny(usize),
     /// IBC outcome for the oldest transfer still in flight
     IbcOldest(u8),
+    /// callback (error ack / timeout) from a *foreign* channel carrying the sequence of the oldest transfer still in flight
+    StrayOldest(u8),
 }
 
 pub fn fresh(cfg: &CfgSpec) -> Built {
@@ -82,6 +84,7 @@ pub fn hist_case(name: &str, cfg: CfgSpec, steps: Vec<H>) -> Case {
                                         Some(Op::Withdraw { sender: P::U(*u), batch: id })
                                     }
                                     DynOp::IbcOldest(o) => b.chain.w.packets.iter().find(|p| p.state == crate::world::PState::Sent).map(|p| Op::Ibc { seq: p.seq, outcome: *o }),
+                                    DynOp::StrayOldest(o) => b.chain.w.packets.iter().find(|p| p.state == crate::world::PState::Sent).map(|p| Op::StrayCallback { seq: p.seq, outcome: *o, foreign_channel: true }),
                                 }
                             }
                             _ => None,
@@ -211,6 +214,38 @@ pub fn histories(cfg: &CfgSpec, tier: &str) -> Vec<Case> {
             ok(recover(Some("staker"))),
             ok(Op::Ibc { seq: 3, outcome: 0 }),
             fails(recover(None)),
+        ],
+    );
+    // a timeout callback from a foreign channel that carries the sequence of an in-flight transfer must change nothing
+    add(
+        "stray-then-recover",
+        vec![
+            resume(),
+            ok(stake(P::U(0), MintTo::None, vec![])),
+            ok(Op::StrayCallback { seq: 1, outcome: 2, foreign_channel: true }),
+            fails(recover(None)),
+            ok(Op::StrayCallback { seq: 1, outcome: 1, foreign_channel: true }),
+            fails(recover(None)),
+            ok(Op::Ibc { seq: 1, outcome: 0 }),
+        ],
+    );
+    // the same while the contract holds other parties' tokens (a wrongly "refundable" transfer would be re-sent from them)
+    add(
+        "stray-then-recover-funded",
+        vec![
+            resume(),
+            ok(stake(P::U(0), MintTo::None, vec![])),
+            ok(unstake(0)),
+            H::Advance(DAY),
+            ok(Op::Submit { sender: P::U(1) }),
+            H::Advance(UNBOND),
+            ok(recv(1)),
+            ok(Op::Donate { denom: Funds::Native }),
+            ok(stake(P::U(1), MintTo::None, vec![])),
+            ok(Op::StrayCallback { seq: 2, outcome: 2, foreign_channel: true }),
+            fails(recover(None)),
+            ok(Op::Ibc { seq: 2, outcome: 0 }),
+            ok(wd(0, 1)),
         ],
     );
     // LST delivery to the native chain fails, is recovered by anyone to the same receiver
@@ -454,6 +489,8 @@ pub fn alphabet() -> Vec<(&'static str, Vec<H>)> {
         ("ibcErr", vec![H::Dyn(DynOp::IbcOldest(1))]),
         ("ibcTimeout", vec![H::Dyn(DynOp::IbcOldest(2))]),
         ("ibcOk", vec![H::Dyn(DynOp::IbcOldest(0))]),
+        ("strayTimeout", vec![H::Dyn(DynOp::StrayOldest(2))]),
+        ("strayErr", vec![H::Dyn(DynOp::StrayOldest(1))]),
         ("recover", vec![H::Try(Op::Recover { sender: P::U(2), paginated: None, selected: None, receiver: None, faults: vec![] })]),
         ("recoverN", vec![H::Try(Op::Recover { sender: P::U(2), paginated: Some(true), selected: None, receiver: Some("n1"), faults: vec![] })]),
         ("feeWithdraw", vec![H::Try(Op::FeeWithdraw { sender: P::Admin })]),
@@ -490,10 +527,23 @@ fn prefixes() -> Vec<(&'static str, Vec<H>)> {
 pub fn sequences(cfg: &CfgSpec, tier: &str, seed: u64) -> Vec<Case> {
     let al = alphabet();
     let n = al.len();
-    let depth = 3;
-    // share of the 2 x 21^3 sequences that is explored: quick 1/48 (seed-dependent offset), thorough 1/6; SYMX_SEQ_STRIDE=1 explores all
-    let stride: usize = std::env::var("SYMX_SEQ_STRIDE").ok().and_then(|s| s.parse().ok()).unwrap_or(if tier == "thorough" { 6 } else { 48 });
     let mut v = vec![];
+    // every sequence of two letters (both tiers)
+    for (pn, pre) in prefixes() {
+        for a in 0..n {
+            for b2 in 0..n {
+                let mut steps = pre.clone();
+                steps.extend(al[a].1.clone());
+                steps.extend(al[b2].1.clone());
+                let mut case = hist_case(&format!("{pn}.{}.{}.", al[a].0, al[b2].0), cfg.clone(), steps);
+                case.name = case.name.replacen("hist:", "seq:", 1);
+                v.push(case);
+            }
+        }
+    }
+    let depth = 3;
+    // share of the 2 x 23^3 three-letter sequences that is explored: quick 1/96 (seed-dependent offset), thorough 1/6; SYMX_SEQ_STRIDE=1 explores all
+    let stride: usize = std::env::var("SYMX_SEQ_STRIDE").ok().and_then(|s| s.parse().ok()).unwrap_or(if tier == "thorough" { 6 } else { 96 });
     for (pn, pre) in prefixes() {
         let total = n.pow(depth as u32);
         for code in 0..total {
